@@ -12,6 +12,7 @@ import (
 	"github.com/fogfish/golem/pipe/v2"
 	"github.com/fogfish/golem/pipe/v2/fork"
 	"github.com/fogfish/golem/pure/monoid"
+	"github.com/fogfish/golem/pure/semigroup"
 
 	"verif/sim/driver"
 	"verif/sim/simrt"
@@ -113,28 +114,41 @@ func gcd(a, b int) int {
 // commutative; "seq" is order-sensitive (used for the sequential Fold only).
 var monoidNames = []string{"sum", "prod", "max", "min", "and", "or", "gcd"}
 
-func monoidOf(name string) monoid.Monoid[int] {
+// monoidDef is the plain-Go definition (identity, operation) of a monoid: the
+// reference model folds with these directly and never goes through the
+// repository's pure/monoid, which is part of what is being checked.
+func monoidDef(name string) (int, func(a, b int) int) {
 	switch name {
 	case "sum":
-		return monoid.FromOp(0, func(a, b int) int { return a + b })
+		return 0, func(a, b int) int { return a + b }
 	case "prod":
-		return monoid.FromOp(1, func(a, b int) int { return (a % prime) * (b % prime) % prime })
+		return 1, func(a, b int) int { return (a % prime) * (b % prime) % prime }
 	case "prodx": // plain product: with distinct primes as input the exponents count how often each element was combined
-		return monoid.FromOp(1, func(a, b int) int { return a * b })
+		return 1, func(a, b int) int { return a * b }
 	case "max":
-		return monoid.FromOp(math.MinInt, func(a, b int) int { return max(a, b) })
+		return math.MinInt, func(a, b int) int { return max(a, b) }
 	case "min":
-		return monoid.FromOp(math.MaxInt, func(a, b int) int { return min(a, b) })
+		return math.MaxInt, func(a, b int) int { return min(a, b) }
 	case "and":
-		return monoid.FromOp(-1, func(a, b int) int { return a & b })
+		return -1, func(a, b int) int { return a & b }
 	case "or":
-		return monoid.FromOp(0, func(a, b int) int { return a | b })
+		return 0, func(a, b int) int { return a | b }
 	case "gcd":
-		return monoid.FromOp(0, gcd)
+		return 0, gcd
 	case "seq":
-		return monoid.FromOp(7, func(a, b int) int { return ((a%prime)*31 + b%prime + prime) % prime })
+		return 7, func(a, b int) int { return ((a%prime)*31 + b%prime + prime) % prime }
 	}
 	panic("unknown monoid " + name)
+}
+
+// monoidOf builds the monoid handed to the library with the repository's own
+// pure/monoid constructors (FromOp, or From over a pure/semigroup).
+func monoidOf(name string) monoid.Monoid[int] {
+	empty, op := monoidDef(name)
+	if len(name)%2 == 0 {
+		return monoid.From[int](empty, semigroup.From[int](op))
+	}
+	return monoid.FromOp(empty, op)
 }
 
 // countingMonoid counts Combine applications per right-hand element.
@@ -164,10 +178,10 @@ func (c *countingMonoid) Combine(a, b int) int {
 	return c.m.Combine(a, b)
 }
 
-func foldModel(m monoid.Monoid[int], xs []int) int {
-	acc := m.Empty()
+func foldModel(name string, xs []int) int {
+	acc, op := monoidDef(name)
 	for _, x := range xs {
-		acc = m.Combine(acc, x)
+		acc = op(acc, x)
 	}
 	return acc
 }
@@ -292,7 +306,7 @@ func modelOf(p *driver.Plan) Model {
 			}
 		}
 	case "Fold":
-		m.Out = []int{foldModel(monoidOf(p.Monoid), in)}
+		m.Out = []int{foldModel(p.Monoid, in)}
 	case "ForEach":
 		m.Calls = append(m.Calls, in...)
 	case "Void":
